@@ -104,7 +104,7 @@ type job struct {
 	u  *Unit
 	ob *Oblig
 	z3file, cvcfile string
-	iz3, icvc string
+	iz3, icvc []string
 }
 
 func runCheck(eng *Engine, start time.Time) int {
@@ -155,12 +155,60 @@ func runCheck(eng *Engine, start time.Time) int {
 			ob.File = f1
 			j := job{u: u, ob: ob, z3file: f1, cvcfile: f2}
 			if igoal != nil {
-				i1, _ := BuildScript(ias, igoal, nil, false)
-				i2, _ := BuildScript(ias, igoal, nil, true)
-				j.iz3 = strings.TrimSuffix(f1, ".smt2") + ".inst.smt2"
-				j.icvc = strings.TrimSuffix(f1, ".smt2") + ".inst.cvc5.smt2"
-				os.WriteFile(j.iz3, []byte(i1), 0644)
-				os.WriteFile(j.icvc, []byte(i2), 0644)
+				// case split on at most three append outcomes occurring in this VC, then instantiate each case
+				var splits []*Term
+				if len(u.Splits) > 0 {
+					occ := termSet(append(append([]*Term{}, as...), goal))
+					for _, sp := range u.Splits {
+						rs := resolveDefs(sp)
+						if occ[rs] && len(splits) < 3 && !hasBound(rs) {
+							dup := false
+							for _, x := range splits {
+								if x == rs {
+									dup = true
+								}
+							}
+							if !dup {
+								splits = append(splits, rs)
+							}
+						}
+					}
+				}
+				ncase := 1 << uint(len(splits))
+				for cs := 0; cs < ncase; cs++ {
+					cas, cgoal := ias, igoal
+					if len(splits) > 0 {
+						sub := map[*Term]*Term{}
+						var fix []*Term
+						for bi, sp := range splits {
+							if cs&(1<<uint(bi)) != 0 {
+								sub[sp] = TTrue
+								fix = append(fix, sp)
+							} else {
+								sub[sp] = TFalse
+								fix = append(fix, Not(sp))
+							}
+						}
+						ras := make([]*Term, 0, len(as)+len(fix))
+						for _, a := range as {
+							ras = append(ras, replaceTerms(a, sub))
+						}
+						ras = append(ras, fix...)
+						rg := replaceTerms(goal, sub)
+						cas, cgoal = prepareVCq(ras, rg)
+						if cgoal == nil {
+							cas, cgoal = ras, rg
+						}
+					}
+					i1, _ := BuildScript(cas, cgoal, nil, false)
+					i2, _ := BuildScript(cas, cgoal, nil, true)
+					fz := fmt.Sprintf("%s.inst%d.smt2", strings.TrimSuffix(f1, ".smt2"), cs)
+					fc := fmt.Sprintf("%s.inst%d.cvc5.smt2", strings.TrimSuffix(f1, ".smt2"), cs)
+					os.WriteFile(fz, []byte(i1), 0644)
+					os.WriteFile(fc, []byte(i2), 0644)
+					j.iz3 = append(j.iz3, fz)
+					j.icvc = append(j.icvc, fc)
+				}
 			}
 			jobs = append(jobs, j)
 		}
@@ -180,15 +228,25 @@ func runCheck(eng *Engine, start time.Time) int {
 			defer func() { <-sem }()
 			var r SolveResult
 			done := false
-			if j.iz3 != "" {
-				// quantifier-free instantiated variant first; only "unsat" is conclusive for it
+			if len(j.iz3) > 0 {
+				// quantifier-free instantiated variant(s) first; only "unsat" (of every case) is conclusive for them
 				it := timeout / 2
 				if it < 5 {
 					it = 5
 				}
-				r = raceFiles(j.iz3, j.icvc, it, seed, false)
-				if r.Status == "unsat" {
+				all := true
+				var tot float64
+				for ci := range j.iz3 {
+					r = raceFiles(j.iz3[ci], j.icvc[ci], it, seed, false)
+					tot += r.Time
+					if r.Status != "unsat" {
+						all = false
+						break
+					}
+				}
+				if all {
 					r.Solver += "+inst"
+					r.Time = tot
 					done = true
 				}
 			}
@@ -206,6 +264,27 @@ func runCheck(eng *Engine, start time.Time) int {
 	}
 	wg.Wait()
 	return report(eng, units, start, workdir, timeout, seed)
+}
+
+func termSet(roots []*Term) map[*Term]bool {
+	seen := map[*Term]bool{}
+	var rec func(t *Term)
+	rec = func(t *Term) {
+		if seen[t] {
+			return
+		}
+		seen[t] = true
+		if t.Def != nil {
+			rec(t.Def)
+		}
+		for _, a := range t.Args {
+			rec(a)
+		}
+	}
+	for _, r := range roots {
+		rec(r)
+	}
+	return seen
 }
 
 func dumpSSA(eng *Engine, name string) {
